@@ -4,9 +4,14 @@
             | :k j                AccountingTestMemoryAllocator around object j
             | :l j                MemoryLeakAllocator around object j
      op   ::= :a e al addr size | :f e al addr|~ | :r al addr|~ newaddr size | :w addr $bytes | :t 0|1
+            | :e 0|1|2|3          detector disable() / enable() / startChecking() / stopChecking()
+            | :s 0|1              decrease / increaseAllocationStage()
+            | :m 0|1              install the default / the thread-safe new-delete-malloc overloads
      e    ::= 0 new/delete  1 new[]/delete[]  2 malloc/free  3 MemoryLeakAllocator::alloc_memory/free_memory
+              4 / 5 detector allocMemory/deallocMemory called directly, allocatNodesSeperately = false / true
    Observation: one item per :f / :r :   | calls cat nfreed (addr $bytes|~)*nfreed total res *)
-let entry_of = function 0 -> ENew | 1 -> ENewArr | 2 -> EMalloc | 3 -> EString | _ -> raise (Bad "entry")
+let entry_of = function 0 -> ENew | 1 -> ENewArr | 2 -> EMalloc | 3 -> EString | 4 -> EDirect false | 5 -> EDirect true | _ -> raise (Bad "entry")
+let pop_of = function 0 -> PDisable | 1 -> PEnable | 2 -> PStart | 3 -> PStop | _ -> raise (Bad "period operation")
 let optaddr s = if s = "~" then None else Some (n_tok s)
 let desc c = match next c with
   | ":p" -> APlain (bytes_tok (next c))
@@ -21,6 +26,9 @@ let rec ops c =
     | ":r" -> let al = nat_tok (next c) in let p = optaddr (next c) in let na = n_tok (next c) in let sz = n_tok (next c) in OpRealloc (al, p, na, sz)
     | ":w" -> let a = n_tok (next c) in let bs = bytes_tok (next c) in OpWrite (a, bs)
     | ":t" -> OpTypeCheck (bool_tok (next c))
+    | ":e" -> OpPeriod (pop_of (int_tok (next c)))
+    | ":s" -> OpStage (bool_tok (next c))
+    | ":m" -> OpOverloads (bool_tok (next c))
     | t -> raise (Bad ("op " ^ t)) in
   o :: ops c
 let scenario ts =
